@@ -34,7 +34,10 @@ class Fail(Exception):
 
 
 names_st = st.one_of(st.sampled_from(["", "a", "grp", "same", "same", "with space", "x" * 63, "y" * 64, "z" * 65,
-                                      "q" * 300]), st.text(alphabet="abcXYZ_09", min_size=1, max_size=12))
+                                      "q" * 300,
+                                      # long names that agree in their first 64 / 128 characters (legacy buffer sizes)
+                                      "p" * 64, "p" * 64 + "A", "p" * 64 + "B", "p" * 70, "r" * 128 + "x",
+                                      "r" * 128 + "y"]), st.text(alphabet="abcXYZ_09", min_size=1, max_size=12))
 
 
 @st.composite
